@@ -16,9 +16,10 @@ def _d8(f, x, h):
     return s / h, mx
 
 
-def d8(f, x, h):
-    """(derivative estimate, error estimate)"""
+def d8(f, x, h, scale=0.0):
+    """(derivative estimate, error estimate).  `scale` = magnitude of the intermediate terms of f when known
+    (a function computed as 1 + x - 1 is only resolved to eps*1, whatever the size of its values)"""
     d1, m1 = _d8(f, x, h)
     d2, m2 = _d8(f, x, h / 2.0)
-    est = abs(d1 - d2) + 8.0 * EPS * max(m1, m2) / (h / 2.0)
+    est = abs(d1 - d2) + 8.0 * EPS * max(m1, m2, scale) / (h / 2.0)
     return d2, est
